@@ -87,6 +87,30 @@ def grid(params: Dict) -> nx.MultiDiGraph:
         if not nx.is_strongly_connected(g):
             for a, b, d in saved:
                 g.add_edge(a, b, **d)
+    # split-intersection stubs: a twin node a few decimetres from a junction (same location cell), joined to it both ways,
+    # that takes over some of the junction's streets - routes then run over links whose two ends share one cell
+    p_stub = float(params.get("stubs", 0.0))
+    if p_stub > 0:
+        nxt = n * n
+        for u in list(g.nodes()):
+            if rnd.random() >= p_stub:
+                continue
+            t = nxt
+            nxt += 1
+            g.add_node(t, y=g.nodes[u]["y"] + 1e-6, x=g.nodes[u]["x"] + 1e-6)
+            sp = rnd.choice(speeds)
+            g.add_edge(u, t, length=0.3, speed_kmph=sp)
+            g.add_edge(t, u, length=0.3, speed_kmph=sp)
+            outs = [(a, b, dict(d)) for a, b, d in g.out_edges(u, data=True) if b != t]
+            ins = [(a, b, dict(d)) for a, b, d in g.in_edges(u, data=True) if a != t]
+            for a, b, d in outs[: max(1, len(outs) // 2)]:
+                g.remove_edge(a, b)
+                g.add_edge(t, b, **d)
+            for a, b, d in ins[: len(ins) // 2]:
+                g.remove_edge(a, b)
+                g.add_edge(a, t, **d)
+        if not nx.is_strongly_connected(g):
+            raise RuntimeError("stub construction broke connectivity")
     return g
 
 
